@@ -20,8 +20,11 @@ CLAIMS = {
         text="spec/Image.tla models every setter with its early-return guard as in pixman-image.c, the dirty flag "
              "and what validate derives (for the image and its attached alpha map). TLC checks for all four image "
              "types and all call sequences to depth 5-6 that the stored properties are the requested ones and that "
-             "derived state is never stale when not dirty; eleven wrong designs (missing property_changed, weaker "
-             "guards, validate not refreshing gradients / the alpha map) are rejected. TLC-generated histories "
+             "derived state is never stale when not dirty; twenty wrong designs (missing property_changed, weaker "
+             "guards, validate not refreshing gradients / the alpha map, derived state computed from the client's "
+             "palette or pixel memory) are rejected. Steps in which the client rewrites memory the image refers to "
+             "without copying (palette contents, pixel buffer; classes crossing the opaque / translucent boundary) "
+             "are part of the histories; arrays the setters copy are overwritten after the call. TLC-generated histories "
              "(all of depth 1-2, random of depth 6) are replayed on bits / indexed / linear / radial / conical / "
              "solid images used as source, mask and destination; at every rendering TLC requires the long-lived "
              "image and a replica created from the final properties to produce identical bytes, flags and format "
@@ -31,8 +34,9 @@ CLAIMS = {
 
 NEGATIVE = ["nodirty_t", "nodirty_f", "nodirty_r", "nodirty_ca", "nodirty_acc", "nodirty_am", "nodirty_ma",
             "guard_filter_kind", "guard_filter_prefix", "guard_transform_class", "guard_transform_prefix",
-            "guard_transform_wrong_pair", "guard_dof_x_only", "guard_ao_wrong_pair", "dirty_am_presence_only", "clip16_empty_keeps_old", "gradient_no_refresh", "map_not_validated"]
-ORDER = ["t", "f", "r", "c", "sc", "cc", "am", "ao", "ca", "acc", "pal", "d", "dof", "ma"]
+            "guard_transform_wrong_pair", "guard_dof_x_only", "guard_ao_wrong_pair", "dirty_am_presence_only", "clip16_empty_keeps_old", "gradient_no_refresh", "map_not_validated",
+            "derive_reads_palette", "derive_reads_pixels"]
+ORDER = ["t", "f", "r", "c", "sc", "cc", "am", "ao", "ca", "acc", "pal", "d", "dof", "ma", "pe", "px"]
 TYPES = {"bits": 0, "indexed": 1, "gradient": 2, "solid": 3}
 ROLES = {"src": 0, "mask": 1, "dst": 2}
 
@@ -107,6 +111,8 @@ PREF = {    # configurations (type, role) in which a change of the property chan
     "am": [("bits", "src"), ("bits", "dst")], "ao": [("bits", "src"), ("bits", "dst")], "ma": [("bits", "src"), ("bits", "dst")],
     "ca": [("bits", "mask"), ("gradient", "mask"), ("solid", "mask")], "acc": [("bits", "src"), ("bits", "mask"), ("bits", "dst")],
     "pal": [("indexed", "src"), ("indexed", "mask")], "d": [("bits", "dst")], "dof": [("bits", "dst")],
+    # client memory edited in place (palette contents, pixel buffer): shows when the image is read
+    "pe": [("indexed", "src"), ("indexed", "mask")], "px": BITSY,
 }
 
 
@@ -167,6 +173,18 @@ HANDWRITTEN = [
                                          ("cc", 1, 0), ("sc", 0, 1), ("c", 0, 1)]),
     hand("indexed", "src", "0 0 0 0 21", [("pal", 2, 1), ("pal", 1, 1), ("pal", 3, 1), ("acc", 1, 1), ("pal", 2, 1),
                                             ("r", 1, 1)]),
+    # client-owned memory changed between uses: the palette edited in place and re-installed with the same pointer,
+    # with another pointer, not at all; back to opaque; pixels of a 1x1 repeating image (a solid colour to the
+    # library) and of an ordinary image crossing the opaque / translucent / transparent boundaries
+    hand("indexed", "src", "0 0 0 0 41", [("pe", 0, 1), ("pe", 1, 1), ("pal", 1, 1), ("pe", 0, 1), ("pe", 3, 1), ("pal", 3, 1),
+                                            ("pe", 2, 1), ("pal", 2, 1), ("pe", 1, 1), ("r", 1, 1), ("pe", 0, 1)]),
+    hand("indexed", "mask", "1 0 0 0 42", [("pe", 1, 1), ("pe", 0, 1), ("pal", 1, 1), ("pe", 3, 1), ("pe", 2, 1)]),
+    hand("indexed", "src", "2 0 0 1 43", [("r", 1, 1), ("pe", 3, 1), ("pe", 0, 1), ("px", 3, 1), ("pe", 1, 1), ("px", 0, 1)]),
+    hand("bits", "src", "0 0 0 384 44", [("r", 1, 1), ("px", 1, 1), ("px", 2, 1), ("px", 4, 1), ("px", 3, 1), ("px", 1, 1),
+                                           ("r", 0, 1), ("px", 0, 1)]),
+    hand("bits", "mask", "3 0 0 385 45", [("r", 1, 1), ("px", 1, 1), ("px", 3, 1), ("ca", 1, 1), ("px", 4, 1), ("px", 2, 1)]),
+    hand("bits", "src", "0 0 0 2 46", [("px", 1, 1), ("px", 2, 1), ("px", 1, 1), ("r", 1, 1), ("px", 3, 1), ("px", 4, 1)]),
+    hand("bits", "src", "5 4 0 3 47", [("px", 1, 1), ("px", 2, 1), ("px", 3, 1), ("px", 0, 1)]),
     hand("solid", "src", "0 0 0 2 22", [("r", 1, 1), ("ca", 1, 1), ("t", 2, 1), ("am", 1, 1), ("am", 0, 1)]),
 ]
 
@@ -256,7 +274,7 @@ def run(prop, args):
         pref = [b for b in cand if (b[0]["type"], b[0]["role"]) in PREF[key[0]]]
         if not quick:
             pairs += cand
-        elif key[0] in ("am", "r", "ca", "acc", "ma", "ao", "pal", "c") or rng.random() < 0.25:
+        elif key[0] in ("am", "r", "ca", "acc", "ma", "ao", "pal", "c", "pe", "px") or rng.random() < 0.25:
             pairs += rng.sample(pref, min(len(pref), 1))
     chk.extra["setter_value_pairs"] = {"pairs": len(groups), "histories_replayed": len(pairs)}
     pairs3 = []
